@@ -1,10 +1,12 @@
 """C05 - cut commits the clause and nothing else."""
-from lib import semcheck, progs, progs_shapes, progs_r4
-from lib.semcheck import impl, model_expr, compare, oracle, describe, shrink, IMPORTS
+import sys, time, json, random
+from lib import semcheck, progs, progs_shapes, progs_r4, consumers, ast_io
+from lib.semcheck import model_expr, compare, describe, shrink, IMPORTS
 
 ID = 'C05'
 THEOREMS = ['C05_cut_code_correct', 'C05_compiled_program_computes_reference', 'C05_cut_prunes_later_clauses', 'C05_no_cut_continues', 'C05_cut_local_to_predicate', 'C05_query_result_after_cut', 'C05_cut_spec_readable', 'C05_cut_first',
-            'C05_cut_in_disjunction_branch', 'C05_cut_in_then_branch', 'C05_cut_in_else_branch', 'C05_cut_survives_continuation', 'C05_cut_continuation_backtracks']
+            'C05_cut_in_disjunction_branch', 'C05_cut_in_then_branch', 'C05_cut_in_else_branch', 'C05_cut_survives_continuation', 'C05_cut_continuation_backtracks',
+            'C05_consumers_ignore_cut_flag', 'C05_evaluate_bounded_is_plain_iteration', 'C05_cut_flag_is_not_the_end_of_the_query', 'C05_stopping_at_the_cut_flag_loses_answers']
 CASE_TIMEOUT = 60
 MODEL_NEEDS_IMPL = True
 COQ_CHUNK = 20
@@ -16,10 +18,15 @@ RULE = ('random programs as for C01 whose bodies also contain ! at the top level
         'the nesting limit of the emitted Python) with cuts, cuts nested in ;/-> branches, if-then-else and negation at every position '
         'including the last ones, later clauses and caller alternatives; directly recursive predicates over lists / s(N) / acyclic graphs '
         'with random cut placement (base clause ending in !, cut before the recursive call), tail and non-tail recursion and alternatives at '
-        'every level of the recursion.')
+        'every level of the recursion.  Round 4: every program is also run behind every consumer API (plain iteration, evaluate_bounded with a '
+        'recursion limit at / above the one in force and with its default, list(), next()+close()), with some of its cut-free conjunctive '
+        'predicates (the callers) written in Python as re-entrant twins that query the same engine inside their loops (yielding False / True / '
+        'passing the flag of their last goal on), and with the clauses of one predicate split over two scripts loaded with overwrite=False; '
+        'all must present the answers of plain iteration of the all-compiled single script (the split one when its first part has no cut; '
+        'otherwise only its own consumers must agree with each other), leave no variable bound and the recursion limit unchanged.')
 TRUSTED_BASE = []
 
-N_LONG = {'quick': 50, 'thorough': 400}
+N_LONG = {'quick': 60, 'thorough': 450}
 N_REC = {'quick': 50, 'thorough': 400}
 N_LIMIT = {'quick': 50, 'thorough': 400}
 
@@ -40,8 +47,10 @@ def gen(rng, tier):
             cl.append([name, args, body])
         cases.append({'clauses': cl, 'queries': p['queries']})
     # program shapes that the layered random programs never reach (lib/progs_shapes.py)
-    for _ in range(N_LONG[tier]):
-        cases.append(progs_shapes.gen_long_body_program(rng))
+    for i in range(N_LONG[tier]):
+        # two of three may fill CPython's 20 statically nested blocks completely (round 4: most of those are filled up to exactly 20, half
+        # of them with a control construct as their very last goal), the others leave one block free as before
+        cases.append(progs_shapes.gen_long_body_program(rng, progs_shapes.MAX_FOR_EXACT if i % 3 else None))
     for _ in range(N_REC[tier]):
         cases.append(progs_shapes.gen_recursive_program(rng))
     # round 4: bodies AT CPython's limit of 20 statically nested blocks (18, 19, 20) with a cut in a branch of the last control construct,
@@ -67,11 +76,150 @@ def builtin_corpus():
           ['s', [V('X')], ['and', ['cut'], ['true']]], ['t', [V('X')], ['call', 'q', [V('X')]]]] + q3, [['p', [V('Q0')]], ['r', [V('Q0')]], ['t', [V('Q0')]], ['q', [V('Q0')]]])
     return L
 
+# ------------------------------------------------------------------ round 4: the same program behind every consumer API, with callers
+# written in Python, and with a definition split over two scripts
+#
+# The cut is implemented by a protocol between generators: a clause that ends in `!` yields True and returns; YP.query passes the
+# flag on (`yield from`), and so does whatever sits between the clause and the consumer - a registered Python predicate that is the
+# twin of a compiled caller (`c(X,Y) :- q(X), p(Y).` written with nested `for .. in yp.query(..)` loops), the chain of two definitions
+# of one predicate (load_script_from_string(.., overwrite=False) twice) - up to the consumer API.  "The caller's own alternatives are
+# untouched" must hold at every one of these places, so each program is also run
+#   * behind every consumer API (plain iteration, evaluate_bounded, list(), next()+close()),
+#   * with some of its cut-free conjunctive predicates (the callers) replaced by their Python twins (re-entrant: they query the
+#     same engine inside their loops; yielding False / True / passing the flag of their last goal on),
+#   * with the clauses of one predicate split over two scripts loaded with overwrite=False (the cut of a clause commits the
+#     definition it belongs to; when the first part has no cut the answers are those of the unsplit program),
+# and all of these must present the answers that plain iteration of the all-compiled single script presents (which is what the Coq
+# model is compared with).
+
+API_TIME = 0.25      # seconds: a query whose plain enumeration takes longer is not run again behind the other APIs
+
+def api_plan(case):
+    """which predicates get a Python twin (with which yield style) and which predicate is split where; drawn from a random stream
+    that depends on the case only"""
+    cl = case['clauses']
+    rng = random.Random(json.dumps([cl, case['queries']], sort_keys=True))
+    keys = []
+    for c in cl:
+        k = (c[0], len(c[1]))
+        if k not in keys:
+            keys.append(k)
+    defined = set(keys)
+    elig = [k for k in keys if consumers.twin_eligible(cl, k, defined) and any(c[2] != ['true'] for c in cl if (c[0], len(c[1])) == k)]
+    twins = []
+    if elig:
+        some = [k for k in elig if rng.random() < 0.6] or [rng.choice(elig)]
+        twins = [[k[0], k[1], rng.choice([0, 1, 2, 2])] for k in some]
+    multi = [k for k in keys if sum(1 for c in cl if (c[0], len(c[1])) == k) >= 2]
+    split = None
+    if multi:
+        # prefer predicates whose clauses contain cuts
+        cutting = [k for k in multi if any(progs_shapes.has_cut(c[2]) for c in cl if (c[0], len(c[1])) == k)]
+        k = rng.choice(cutting) if cutting and rng.random() < 0.7 else rng.choice(multi)
+        n = sum(1 for c in cl if (c[0], len(c[1])) == k)
+        split = [k[0], k[1], rng.randrange(1, n)]
+    return {'twins': twins, 'split': split}
+
+def split_scripts(case, split):
+    key = (split[0], split[1])
+    first, second, seen = [], [], 0
+    for c in case['clauses']:
+        if (c[0], len(c[1])) == key:
+            seen += 1
+            (first if seen <= split[2] else second).append(c)
+        else:
+            first.append(c)
+    cut_in_first = any(progs_shapes.has_cut(c[2]) for c in first if (c[0], len(c[1])) == key)
+    return first, second, cut_in_first
+
+def api_views(case, base):
+    from yldprolog import compiler, engine as E
+    plan = api_plan(case)
+    out = {'plan': plan, 'engines': {}}
+    def load(yp, clauses, overwrite=True):
+        if clauses:
+            yp.load_script_from_string(compiler.compile_prolog_from_string(ast_io.program_text(clauses), semcheck.Ctx), overwrite=overwrite)
+    engines = [('same', None)]
+    if plan['twins']:
+        engines.append(('twin', None))
+    if plan['split']:
+        engines.append(('split', None))
+    for which, _ in engines:
+        yp = E.YP()
+        try:
+            if which == 'same':
+                load(yp, case['clauses'])
+            elif which == 'twin':
+                tk = {(t[0], t[1]) for t in plan['twins']}
+                load(yp, [c for c in case['clauses'] if (c[0], len(c[1])) not in tk])
+                for name, ar, style in plan['twins']:
+                    yp.register_function(name, consumers.python_twin(yp, E, case['clauses'], (name, ar), style), arity=ar)
+            else:
+                first, second, _ = split_scripts(case, plan['split'])
+                load(yp, first, False)
+                load(yp, second, False)
+        except Exception as e:
+            out['engines'][which] = {'rejected': type(e).__name__, 'msg': str(e)[:200]}
+            continue
+        views = []
+        for qi, q in enumerate(case['queries']):
+            bq = base['queries'][qi]
+            if not consumers.wanted(bq):
+                views.append(None)
+                continue
+            t0 = time.time()
+            plain = semcheck.run_queries(yp, dict(case, queries=[q]))[0]
+            if time.time() - t0 > API_TIME or not consumers.wanted(plain):
+                views.append({'plain': plain, 'cons': None})
+                continue
+            args, nq = semcheck.query_terms(q)
+            views.append({'plain': plain, 'cons': consumers.other_consumers(yp, q[0], args, nq, qi + len(case['clauses']), semcheck.LIMIT)})
+        out['engines'][which] = {'views': views}
+    return out
+
+def impl(case):
+    io = semcheck.impl(case)
+    if isinstance(io, dict) and 'queries' in io and 'source' not in case:
+        io['api'] = api_views(case, io)
+    return io
+
+def api_oracle(case, io):
+    api = io.get('api') if isinstance(io, dict) else None
+    if not api:
+        return None
+    plan = api['plan']
+    names = {'same': 'the program', 'twin': 'the program with %s written in Python (re-entrant twins of the compiled clauses)' % ', '.join('%s/%d' % (t[0], t[1]) for t in plan['twins']),
+             'split': 'the program with the clauses of %s split after clause %s over two scripts loaded with overwrite=False' % ('%s/%d' % tuple(plan['split'][:2]), plan['split'][2]) if plan['split'] else ''}
+    for which, e in api['engines'].items():
+        if 'rejected' in e:
+            if 'too large for Python' in (e.get('msg') or ''):
+                continue
+            return '%s: %s %s' % (names[which], e['rejected'], e.get('msg'))
+        exact = which != 'split' or not split_scripts(case, plan['split'])[2]
+        for q, bq, v in zip(case['queries'], io['queries'], e['views']):
+            if v is None:
+                continue
+            qt = ast_io.term_text(['fun', q[0], q[1]]) if q[1] else q[0]
+            pl = v['plain']
+            if pl['end'] in ('budget', 'raised RecursionError') or bq['end'] == 'raised RecursionError':
+                continue        # search budget; cyclic terms (no occurs check) / depth: outside the domain, as for the model
+            if exact and (pl['end'] != bq['end'] or pl['answers'] != bq['answers'] or pl['count'] != bq['count']):
+                return 'query %s: %s answers differently from the all-compiled single script (%s after %d answers vs %s after %d)' % (qt, names[which], pl['end'], pl['count'], bq['end'], bq['count'])
+            if pl['leftover'] and pl['end'] == 'done':
+                return 'query %s (%s): query variables still bound after the enumeration ended' % (qt, names[which])
+            if v['cons'] and pl['end'] == 'done':
+                r = consumers.mismatch(pl, v['cons'], semcheck.LIMIT)
+                if r:
+                    return 'query %s on %s: %s' % (qt, names[which], r)
+    return None
+
 def oracle(case, io):
     """intrinsic, on the implementation alone: no query variable stays bound (semcheck), and the caller's own alternatives are
     untouched - the generated callers around a predicate with cuts answer exactly their callee's answers inside their own
-    generator's solutions, followed by their own last clause (progs_shapes.check_relations)"""
-    return semcheck.oracle(case, io) or progs_shapes.check_relations(case, io) or progs_r4.check_same_answers(case, io)
+    generator's solutions, followed by their own last clause (progs_shapes.check_relations); round 4: the same answers behind every
+    consumer API, with callers written in Python, with a definition split over two scripts (api_oracle); same answers for
+    re-spelled programs (progs_r4.check_same_answers)"""
+    return semcheck.oracle(case, io) or progs_shapes.check_relations(case, io) or progs_r4.check_same_answers(case, io) or api_oracle(case, io)
 
 def nontrivial(case, io):
     if not isinstance(io, dict) or 'queries' not in io or not any(q['count'] >= 1 for q in io['queries']):
